@@ -306,6 +306,15 @@ def run(ctx):
             parts = ab.split_data(data)
             tot = sum(p.shape[-1] for p in parts)
             ctx.check("AdaptiveBound: every event in exactly one bin", tot == n, lambda: dict(desc, total=tot), mechanism="adaptive bins split_data total")
+            # ANOTHER sample (the phase-space MC or background a chi2 is compared with) inside the bounding box of the binned one:
+            # the bins tile the box, so each of its events is in exactly one bin as well
+            lo_, hi_ = data.min(axis=1, keepdims=True), data.max(axis=1, keepdims=True)
+            other = lo_ + (hi_ - lo_) * rng.random((nd, 400))
+            cnt2 = np.sum(np.stack(ab.get_bool_mask(other)).astype(int), axis=0)
+            tot2 = sum(p.shape[-1] for p in ab.split_data(other))
+            ctx.check("AdaptiveBound: every event in exactly one bin", bool(np.all(cnt2 == 1)) and tot2 == 400,
+                      lambda: dict(desc, other_sample_not_once=int(np.sum(cnt2 != 1)), split_total=tot2, of=400),
+                      mechanism="adaptive bins do not tile the box (other sample, %d layer%s)" % (layers if not ties else 1, "" if (layers if not ties else 1) == 1 else "s"))
             if not ties:
                 pops = np.array([int(m.sum()) for m in masks])
                 # each split level distributes its events within +-1 of equal shares
